@@ -24,6 +24,7 @@ import (
 	"path/filepath"
 	"sort"
 	"strings"
+	"sync"
 
 	"golang.org/x/tools/go/packages"
 	"golang.org/x/tools/go/ssa"
@@ -1440,7 +1441,7 @@ func translate1(prog *ssa.Program, pkg *ssa.Package, globals map[*ssa.Global]*Ce
 		fail("function %s not found in %s", t.Fn, t.Pkg)
 	}
 	em := &Emitter{consts: map[string]int{}}
-	in := &Interp{prog: prog, em: em, globals: globals, declass: map[string]bool{}, declassVal: declassVal, initComplete: initCompleteGlobal}
+	in := &Interp{prog: prog, em: em, globals: globals, declass: map[string]bool{}, declassVal: declassVal, initComplete: func() bool { v, _ := initCompleteByProg.Load(prog); b, _ := v.(bool); return b }()}
 	for _, d := range t.Declass {
 		in.declass[d] = true
 	}
@@ -1771,7 +1772,18 @@ func main() {
 		byKey[k] = append(byKey[k], t)
 	}
 	var results []Result
+	var mu sync.Mutex
+	resByKey := map[key][]Result{}
+	addRes := func(k key, r Result) { mu.Lock(); resByKey[k] = append(resByKey[k], r); mu.Unlock() }
+	sem := make(chan struct{}, 6)
+	var wg sync.WaitGroup
 	for _, k := range keys {
+		k := k
+		wg.Add(1)
+		sem <- struct{}{}
+		go func() {
+			defer func() { <-sem; wg.Done() }()
+			func() {
 		cfg := &packages.Config{Mode: packages.LoadAllSyntax, Dir: *repo, BuildFlags: []string{"-tags=" + strings.ReplaceAll(k.tags, " ", ",")},
 			Env: append(os.Environ(), "GOFLAGS=-mod=mod", "GOPROXY=off", "GOSUMDB=off", "GOTOOLCHAIN=local")}
 		if *overlay != "" {
@@ -1793,9 +1805,9 @@ func main() {
 				msg += fmt.Sprint(pkgs[0].Errors)
 			}
 			for _, t := range byKey[k] {
-				results = append(results, Result{T: t, Err: "package load failed: " + msg})
+				addRes(k, Result{T: t, Err: "package load failed: " + msg})
 			}
-			continue
+			return
 		}
 		prog, _ := ssautil.AllPackages(pkgs, ssa.InstantiateGenerics)
 		prog.Build()
@@ -1828,7 +1840,7 @@ func main() {
 			}
 		}
 		if initErr == "" {
-			initCompleteGlobal = true
+			initCompleteByProg.Store(prog, true)
 			for _, c := range globals {
 				leaves(c, func(l *Cell) {
 					if u, ok := l.val.(Unknown); ok && strings.HasPrefix(u.why, "package-level variable") {
@@ -1836,8 +1848,6 @@ func main() {
 					}
 				})
 			}
-		} else {
-			initCompleteGlobal = false
 		}
 		if *witness != "" {
 			for _, t := range byKey[k] {
@@ -1850,15 +1860,22 @@ func main() {
 				}
 				os.Exit(0)
 			}
-			continue
+			return
 		}
 		for _, t := range byKey[k] {
 			r := translate(prog, spkg, globals, t)
 			if r.Err != "" && initErr != "" {
 				r.Err += " (package init: " + initErr + ")"
 			}
-			results = append(results, r)
+			addRes(k, r)
 		}
+	
+			}()
+		}()
+	}
+	wg.Wait()
+	for _, k := range keys {
+		results = append(results, resByKey[k]...)
 	}
 	if *ctOut != "" {
 		type ctRes struct {
@@ -2025,7 +2042,7 @@ var zeroUnwritten bool
 // witness search state (set by -witness)
 var concreteInputs []uint64
 var lastTrace []string
-var initCompleteGlobal bool
+var initCompleteByProg sync.Map // *ssa.Program -> bool
 
 func flattenCell(c *Cell, seen map[*Cell]bool, out *[]string, ok *bool) {
 	if seen[c] {
